@@ -216,12 +216,13 @@ def base_plan(tier, seed, classes=('pess', 'opt', 'mcs'), opt_scripts=True, thre
     plan = []
     for cls in classes:
         lib = ALLOPT if (cls == 'opt' and opt_scripts) else programs.COMMON_SCRIPTS
-        plan.append((cls, programs.cross2(cls, lib), dict(pb=2 if q else 3, max_exec=3000 if q else 60000)))
+        # (quick budgets: the whole check has to stay well below 15 minutes even when it is the first one to pay for Level 2)
+        plan.append((cls, programs.cross2(cls, lib), dict(pb=2 if q else 3, max_exec=(700 if cls == 'opt' else 1200) if q else 60000)))
         if three:
             plan.append((cls, programs.cross3(cls, CONV + ('X',), MODES3, MODES3),
-                         dict(pb=1 if q else 2, max_exec=600 if q else 20000)))
+                         dict(pb=1 if q else 2, max_exec=400 if q else 20000)))
             plan.append((cls, programs.cross3(cls, ('X',), MODES3, MODES3, tag='x3x'),
-                         dict(pb=2, max_exec=4000 if q else 30000)))
+                         dict(pb=2, max_exec=1500 if q else 30000)))
             plan.append((cls, programs.four(cls, full=not q), dict(pb=1 if q else 2, max_exec=500 if q else 8000)))
             if cls == 'opt' and opt_scripts:
                 plan.append((cls, programs.cross3(cls, ('GTX', 'GTI', 'PRV', 'GVV'), ('X', 'DNG', 'XSV', 'XX'), ('S', 'SIX', 'X')),
@@ -698,10 +699,10 @@ def id_plan(tier, caps=None):
     q = tier == 'quick'
     plan = []
     for n in (caps or ((1, 2) if q else (1, 2, 3))):
-        plan.append((n, id_programs(n, tier), dict(pb=2 if q else 3, max_exec=(6000 if n < 3 else 2500) if q else 25000)))
+        plan.append((n, id_programs(n, tier), dict(pb=2 if q else 3, max_exec=(2500 if n < 3 else 1200) if q else 25000)))
         # schedules with many preemptions (a thread that loses two claim races in a row, ...) are out of reach of the
         # preemption-bounded search: seeded random schedules of the same programs complement it
-        plan.append((n, id_programs(n, tier), dict(mode='random', max_exec=(1000 if n < 3 else 400) if q else 12000)))
+        plan.append((n, id_programs(n, tier), dict(mode='random', max_exec=(600 if n < 3 else 300) if q else 12000)))
     return plan
 
 
